@@ -6,6 +6,7 @@
 package main
 
 import (
+	"bytes"
 	"database/sql/driver"
 	"encoding/json"
 	"flag"
@@ -73,6 +74,11 @@ type wrap struct {
 	dec   []via
 	rt    []rtvia
 	genv  func(r *rand.Rand) g
+	// fresh: a new destination variable (nothing a decoder could legitimately reuse from an earlier
+	// one); keep: hold on to the variable's value AS IT IS (the very slice, no copy) and render it
+	// when asked later.  nil = reset / render now (types whose values cannot alias anything).
+	fresh func()
+	keep  func() func() interface{}
 }
 
 // ------------------------------------------------------------------ JSON adapted wrappers
@@ -104,6 +110,11 @@ func jsonWrap[T any, PT interface {
 	w := &wrap{ty: ty, kind: kind, gval: gv, genv: genv}
 	w.reset = func() { h.A = sentinel }
 	w.val = func() interface{} { return toVal(h.A) }
+	w.fresh = func() { h = &holder[T]{} }
+	w.keep = func() func() interface{} {
+		v := h.A
+		return func() interface{} { return toVal(v) }
+	}
 	w.dec = []via{
 		{"direct", func(tok []byte) error { return PT(&h.A).UnmarshalJSON(tok) }},
 		{"json", func(tok []byte) error { return json.Unmarshal(tok, &h.A) }},
@@ -332,10 +343,15 @@ func rawWrappers() []*wrap {
 			return s, nil
 		}
 		ws = append(ws, &wrap{ty: "b64", kind: "b64", reset: func() { x = tex.Base64Bytes{7, 77} },
+			fresh: func() { x = nil },
+			keep: func() func() interface{} {
+				v := x
+				return func() interface{} { return bytesVal(v) }
+			},
 			val: func() interface{} { return bytesVal(x) }, gval: gB, genv: genBytes,
 			dec: []via{
 				{"scanstring", func(t []byte) error { return x.Scan(string(t)) }},
-				{"scanbytes", func(t []byte) error { return x.Scan(append([]byte{}, t...)) }},
+				{"scanbytes", func(t []byte) error { return x.Scan(t) }}, // t is the harness's driver buffer
 			},
 			rt: []rtvia{
 				{"sqlstring", func(v g) ([]byte, error) {
@@ -435,6 +451,11 @@ func rawWrappers() []*wrap {
 	{
 		var x tex.JsByte
 		ws = append(ws, &wrap{ty: "bytestext", kind: "rawlist", reset: func() { x = tex.JsByte{7, 77} },
+			fresh: func() { x = nil },
+			keep: func() func() interface{} {
+				v := x
+				return func() interface{} { return bytesVal(v) }
+			},
 			val: func() interface{} { return bytesVal(x) }, gval: gB, genv: genBytes,
 			dec: []via{{"fromstring", func(t []byte) error { return x.FromString(string(t)) }}},
 			rt: []rtvia{
@@ -914,6 +935,7 @@ type runner struct {
 	decs   int
 	rts    int
 	traces int
+	pool   [][]byte // private copies of wire forms the encoders produced (texts that decode)
 }
 
 func call(f func() error) (out string) {
@@ -946,11 +968,91 @@ func (x *runner) step() {
 	x.n++
 }
 
+// dec: the decoder gets its own buffer; tok stays the harness's private copy, so `inmut` says
+// whether the decoder wrote into its argument.
 func (x *runner) dec(v via, tok []byte) {
 	x.step()
-	out := call(func() error { return v.f(tok) })
-	x.w.Emit(tr.E{"ev": "dec", "via": v.name, "tok": tr.Ints(tok), "out": out, "v": x.wr.val()})
+	in := append(make([]byte, 0, len(tok)), tok...)
+	out := call(func() error { return v.f(in) })
+	x.w.Emit(tr.E{"ev": "dec", "via": v.name, "tok": tr.Ints(tok), "out": out, "v": x.wr.val(),
+		"inmut": !bytes.Equal(in, tok), "keep": false})
 	x.decs++
+}
+
+func (x *runner) freshDest() {
+	if x.wr.fresh != nil {
+		x.wr.fresh()
+	} else {
+		x.wr.reset()
+	}
+	x.w.Emit(tr.E{"ev": "fresh", "cur": x.wr.val()})
+}
+
+func (x *runner) keepNow() func() interface{} {
+	if x.wr.keep != nil {
+		return x.wr.keep()
+	}
+	r := x.wr.val()
+	return func() interface{} { return r }
+}
+
+// rows: the harness behaves like a database/sql driver (or a JSON reader) with ONE reusable
+// buffer: each row's text is copied into it and handed to the decoder, every row is decoded into
+// a fresh destination, and the same source is sometimes decoded twice.  Results (and encoder
+// outputs) are kept exactly as returned and rendered only when the history is over (`final`):
+// what a call reported must still be what it reported.
+func (x *runner) rows(rng *rand.Rand, texts [][]byte, nrows int) {
+	x.begin()
+	col := make([]byte, 0, 64)
+	var kept []func() interface{}
+	var in, text []byte
+	for r := 0; r < nrows; r++ {
+		switch k := rng.Intn(10); {
+		case r > 0 && k < 2: // the same source once more
+		case k < 5 && len(x.wr.rt) > 0: // the next row is what the encoder makes of a value
+			val := x.wr.genv(rng)
+			rv := x.wr.rt[rng.Intn(len(x.wr.rt))]
+			x.freshDest()
+			var enc []byte
+			out := call(func() error {
+				var err error
+				enc, err = rv.f(val)
+				return err
+			})
+			if enc == nil {
+				enc = []byte{}
+			}
+			x.w.Emit(tr.E{"ev": "rt", "via": rv.name, "v": x.wr.gval(val), "enc": tr.Ints(enc), "out": out,
+				"back": x.wr.val(), "keep": true})
+			x.rts++
+			e := enc
+			kept = append(kept, func() interface{} { return tr.Ints(e) }, x.keepNow())
+			text = append([]byte{}, enc...)
+			in = append(col[:0], text...)
+			col = in[:0]
+		default:
+			text = texts[rng.Intn(len(texts))]
+			in = append(col[:0], text...)
+			col = in[:0]
+		}
+		x.freshDest()
+		v := x.wr.dec[rng.Intn(len(x.wr.dec))]
+		src := in
+		out := call(func() error { return v.f(src) })
+		ok := out == "ok"
+		x.w.Emit(tr.E{"ev": "dec", "via": v.name, "tok": tr.Ints(text), "out": out, "v": x.wr.val(),
+			"inmut": !bytes.Equal(in, text), "keep": ok})
+		x.decs++
+		if ok {
+			kept = append(kept, x.keepNow())
+		}
+	}
+	vals := make([]interface{}, len(kept))
+	for i, k := range kept {
+		vals[i] = k()
+	}
+	x.w.Emit(tr.E{"ev": "final", "vals": vals})
+	x.n = x.maxLen
 }
 
 func (x *runner) roundTrip(v rtvia, val g) {
@@ -965,8 +1067,12 @@ func (x *runner) roundTrip(v rtvia, val g) {
 	if enc == nil {
 		enc = []byte{}
 	}
-	x.w.Emit(tr.E{"ev": "rt", "via": v.name, "v": x.wr.gval(val), "enc": tr.Ints(enc), "out": out, "back": x.wr.val()})
+	x.w.Emit(tr.E{"ev": "rt", "via": v.name, "v": x.wr.gval(val), "enc": tr.Ints(enc), "out": out, "back": x.wr.val(),
+		"keep": false})
 	x.rts++
+	if out == "ok" && len(x.pool) < 400 {
+		x.pool = append(x.pool, append([]byte{}, enc...))
+	}
 	// the wire form is also a text of its own: what it is decoded to must be what it denotes
 	if len(x.wr.dec) > 0 && x.wr.kind != "scan" {
 		x.dec(x.wr.dec[0], enc)
@@ -979,6 +1085,7 @@ func main() {
 	ntok := flag.Int("n", 300, "random tokens per wrapper (on top of the fixed boundary tokens)")
 	nval := flag.Int("vals", 150, "random values per wrapper for round trips")
 	elen := flag.Int("elen", 4, "exhaustive part: all tokens up to this length over the small alphabets")
+	nrows := flag.Int("rows", 12, "driver-style histories per wrapper (one reused buffer, results kept as returned)")
 	flag.Parse()
 	rng := rand.New(rand.NewSource(*seed))
 	w := tr.Create(*out)
@@ -1065,6 +1172,15 @@ func main() {
 				}
 			} else {
 				x.roundTrip(wr.rt[rng.Intn(len(wr.rt))], v)
+			}
+		}
+		if len(wr.dec) > 0 && wr.kind != "scan" {
+			texts := append([][]byte{}, x.pool...)
+			for i := 0; i < len(toks) && i < len(x.pool)/3+5; i++ { // and some texts that may not decode
+				texts = append(texts, toks[rng.Intn(len(toks))])
+			}
+			for i := 0; i < *nrows; i++ {
+				x.rows(rng, texts, 3+rng.Intn(8))
 			}
 		}
 		total[wr.ty] = x.decs + x.rts
